@@ -135,6 +135,8 @@ func init() {
 			n := pick(tier, 32000, 1000000)
 			js := chunk("main", "prod", n, pick(tier, 2000, 31250), Job{Timeout: 30 * time.Minute})
 			js = append(js, chunk("main", "test", n/4, pick(tier, 1000, 12500), Job{Timeout: 30 * time.Minute})...)
+			// a process whose working directory was removed under it (caller information needs the directory)
+			js = append(js, Job{Sub: "main", Mode: "prod", From: 0, To: pick(tier, 1000, 12500), Args: []string{"-x", "cwdgone=1"}, Timeout: 5 * time.Minute})
 			return js
 		},
 	})
